@@ -5,6 +5,7 @@
 package world
 
 import (
+	"bytes"
 	"context"
 	"encoding/base64"
 	"fmt"
@@ -78,6 +79,8 @@ type World struct {
 	runErr  chan error
 	stopped bool
 	nclient int
+	servers []*Server
+	probeConns []*Peer
 }
 
 var initOnce sync.Once
@@ -390,7 +393,38 @@ func (w *World) Server(addr string) (*Server, error) {
 	if err != nil {
 		return nil, err
 	}
-	return &Server{L: l, Addr: addr}, nil
+	sv := &Server{L: l, Addr: addr}
+	w.servers = append(w.servers, sv)
+	return sv, nil
+}
+
+// AnswerPlainRequests accepts on every scripted server and answers each complete plain HTTP request
+// found on a fresh connection with 200 (used by probes that do not care about the route).
+func (w *World) AnswerPlainRequests() int {
+	for _, sv := range w.servers {
+		for {
+			p := sv.Accept()
+			if p == nil {
+				break
+			}
+			w.probeConns = append(w.probeConns, p)
+		}
+	}
+	n := 0
+	for _, p := range w.probeConns {
+		if bytes.HasSuffix(p.Recv(), []byte("\r\n\r\n")) && bytes.HasPrefix(p.Recv(), []byte("GET ")) && len(p.C.Take()) == 0 && p.C.Written() == 0 {
+			p.Send([]byte("HTTP/1.1 200 OK\r\nContent-Length: 2\r\n\r\nok"))
+			n++
+		}
+	}
+	return n
+}
+
+// CloseProbeConns releases the connections AnswerPlainRequests accepted.
+func (w *World) CloseProbeConns() {
+	for _, p := range w.probeConns {
+		p.Close()
+	}
 }
 
 // Accept returns the next pending connection or nil.
